@@ -18,6 +18,7 @@ inductive Panic where
   | assertion
   | runtime
   | fuel
+  | mismatch              -- `panic(err)` with a `*testError` value (shrinker.accept: the second run of a candidate differs)
 deriving DecidableEq, Repr, Inhabited
 
 abbrev M := Except Panic
